@@ -194,6 +194,11 @@ class ModelProxy:
                 self.sub.append((c, e))
             elif z3.is_int(c):
                 self.sub.append((c, z3.IntVal(int(v))))
+            elif z3.is_array(c):
+                a = z3.K(c.sort().domain(), z3.BitVecVal(0, c.sort().range().size()))
+                for i, x in enumerate(v):
+                    a = z3.Store(a, z3.BitVecVal(i, c.sort().domain().size()), z3.BitVecVal(int(x), c.sort().range().size()))
+                self.sub.append((c, a))
 
     def eval(self, e, model_completion=True):
         r = z3.simplify(z3.substitute(e, *self.sub)) if self.sub else z3.simplify(e)
@@ -233,85 +238,123 @@ class SolvedProxy:
         return self._m
 
 
-def solve(constraints, timeout_s=120):
-    """check-sat in a child process (hard wall-clock limit: z3's own timeout is not honoured by every theory solver)"""
-    import multiprocessing as mp
-    consts = collect_consts(list(constraints))
-    r_fd, w_fd = os.pipe()
+def _child_solve(constraints, consts, timeout_s, w_fd, sat_backend):
+    """runs in the forked child: z3 first (short budget when a SAT back end follows), then bit-blast -> CNF -> kissat for the
+    hard UNSAT cases; a kissat SAT answer is turned into a model by z3 with the remaining budget"""
+    import subprocess, tempfile
     t0 = time.time()
-    pid = os.fork()
-    if pid == 0:
-        try:
-            os.close(r_fd)
-            s = z3.Solver()
-            s.set("timeout", int(timeout_s * 1000))
+    note = "z3"
+    try:
+        s = z3.Solver()
+        first = min(timeout_s, 25) if sat_backend else timeout_s
+        s.set("timeout", int(first * 1000))
+        for c in constraints:
+            s.add(c)
+        r = str(s.check())
+        if r == "unknown" and sat_backend and time.time() - t0 < timeout_s:
+            g = z3.Goal()
             for c in constraints:
-                s.add(c)
-            r = str(s.check())
-            vals = {}
-            if r == "sat":
-                m = s.model()
-                for c in consts:
-                    try:
-                        if z3.is_seq(c):
-                            n = m.eval(z3.Length(c), model_completion=True).as_long()
-                            vals[str(c)] = [m.eval(c[z3.IntVal(i)], model_completion=True).as_long() for i in range(min(n, 2000))]
-                        elif z3.is_bool(c):
-                            vals[str(c)] = z3.is_true(m.eval(c, model_completion=True))
-                        elif z3.is_bv(c) or z3.is_int(c):
-                            vals[str(c)] = m.eval(c, model_completion=True).as_long()
-                    except Exception:
-                        pass
-            os.write(w_fd, json.dumps({"r": r, "vals": vals}).encode())
-        except BaseException as e:   # noqa
-            try:
-                os.write(w_fd, json.dumps({"r": "error: %s" % e, "vals": {}}).encode())
-            except Exception:
-                pass
-        finally:
-            os._exit(0)
-    os.close(w_fd)
+                g.add(c)
+            sub = z3.Then("simplify", "propagate-values", "solve-eqs", "simplify", "bit-blast", "tseitin-cnf")(g)
+            if len(sub) == 1:
+                cnf = "\n".join(l for l in sub[0].dimacs().split("\n") if not l.startswith("c"))
+                fd, path = tempfile.mkstemp(suffix=".cnf", dir=os.environ.get("VERIF_SCRATCH_DIR", "/var/tmp"))
+                os.write(fd, cnf.encode())
+                os.close(fd)
+                left = max(5, int(timeout_s - (time.time() - t0)))
+                try:
+                    p = subprocess.run(["kissat", "-q", "--relaxed", "--time=%d" % left, path], stdout=subprocess.PIPE, stderr=subprocess.STDOUT, text=True, timeout=left + 20)
+                    out = p.stdout
+                finally:
+                    os.unlink(path)
+                note = "z3:unknown(%ds) -> bit-blast (%d clauses) -> kissat" % (first, len(sub[0]))
+                if "s UNSATISFIABLE" in out:
+                    r = "unsat"
+                elif "s SATISFIABLE" in out:
+                    left = max(5, int(timeout_s - (time.time() - t0)))
+                    s.set("timeout", int(left * 1000))
+                    r = str(s.check())
+                    note += " (kissat: SAT) -> z3 for the model"
+                    if r != "sat":
+                        r = "unknown"
+        vals = {}
+        if r == "sat":
+            m = s.model()
+            for c in consts:
+                try:
+                    if z3.is_seq(c):
+                        n = m.eval(z3.Length(c), model_completion=True).as_long()
+                        vals[str(c)] = [m.eval(c[z3.IntVal(i)], model_completion=True).as_long() for i in range(min(n, 2000))]
+                    elif z3.is_array(c):
+                        vals[str(c)] = [m.eval(z3.Select(c, z3.BitVecVal(i, c.sort().domain().size())), model_completion=True).as_long() for i in range(256)]
+                    elif z3.is_bool(c):
+                        vals[str(c)] = z3.is_true(m.eval(c, model_completion=True))
+                    elif z3.is_bv(c) or z3.is_int(c):
+                        vals[str(c)] = m.eval(c, model_completion=True).as_long()
+                except Exception:
+                    pass
+        os.write(w_fd, json.dumps({"r": r, "vals": vals, "note": note}).encode())
+    except BaseException as e:   # noqa
+        try:
+            os.write(w_fd, json.dumps({"r": "error: %s" % e, "vals": {}, "note": note}).encode())
+        except Exception:
+            pass
+    finally:
+        os._exit(0)
+
+
+def solve_many(problems, timeout_s=120, sat_backend=False):
+    """problems: list of constraint lists; all solved concurrently in child processes (hard wall-clock limit).
+    returns list of (SolvedProxy, result string, seconds, note)"""
     import select
-    buf = b""
-    deadline = t0 + timeout_s + 10
-    result = None
-    while True:
-        left = deadline - time.time()
-        if left <= 0:
-            break
-        rd, _, _ = select.select([r_fd], [], [], min(left, 1.0))
-        if rd:
-            chunk = os.read(r_fd, 1 << 20)
-            if not chunk:
-                break
-            buf += chunk
-        else:
-            try:
-                done, _ = os.waitpid(pid, os.WNOHANG)
-            except ChildProcessError:
-                done = pid
-            if done:
-                # drain
-                while True:
-                    chunk = os.read(r_fd, 1 << 20)
-                    if not chunk:
-                        break
-                    buf += chunk
-                break
-    os.close(r_fd)
-    try:
-        os.kill(pid, 9)
-    except ProcessLookupError:
-        pass
-    try:
-        os.waitpid(pid, 0)
-    except ChildProcessError:
-        pass
-    dt = time.time() - t0
-    if not buf:
-        return SolvedProxy(None), "timeout", dt
-    d = json.loads(buf.decode())
-    return SolvedProxy(ModelProxy(consts, d["vals"]) if d["r"] == "sat" else None), d["r"], dt
+    jobs = []
+    t0 = time.time()
+    for cons in problems:
+        consts = collect_consts(list(cons))
+        r_fd, w_fd = os.pipe()
+        pid = os.fork()
+        if pid == 0:
+            os.close(r_fd)
+            _child_solve(cons, consts, timeout_s, w_fd, sat_backend)
+        os.close(w_fd)
+        jobs.append({"pid": pid, "fd": r_fd, "buf": b"", "consts": consts, "done": False, "dt": None})
+    deadline = t0 + timeout_s + 30
+    while not all(j["done"] for j in jobs) and time.time() < deadline:
+        fds = [j["fd"] for j in jobs if not j["done"]]
+        rd, _, _ = select.select(fds, [], [], 1.0)
+        for j in jobs:
+            if j["done"] or j["fd"] not in rd:
+                continue
+            chunk = os.read(j["fd"], 1 << 20)
+            if chunk:
+                j["buf"] += chunk
+            else:
+                j["done"] = True
+                j["dt"] = time.time() - t0
+    out = []
+    for j in jobs:
+        try:
+            os.kill(j["pid"], 9)
+        except ProcessLookupError:
+            pass
+        try:
+            os.waitpid(j["pid"], 0)
+        except ChildProcessError:
+            pass
+        os.close(j["fd"])
+        dt = j["dt"] if j["dt"] is not None else time.time() - t0
+        if not j["buf"]:
+            out.append((SolvedProxy(None), "timeout", dt, ""))
+            continue
+        d = json.loads(j["buf"].decode())
+        out.append((SolvedProxy(ModelProxy(j["consts"], d["vals"]) if d["r"] == "sat" else None), d["r"], dt, d.get("note", "")))
+    return out
+
+
+def solve(constraints, timeout_s=120, sat_backend=False):
+    """check-sat in a child process (hard wall-clock limit: z3's own timeout is not honoured by every theory solver)"""
+    s, r, dt, note = solve_many([list(constraints)], timeout_s, sat_backend)[0]
+    return s, r, dt
 
 
 def chain(rel, k, fresh_start, maxlen=None, decode_mode=None):
